@@ -126,32 +126,92 @@ def exhaustion_history(ctx):
     return L, 0, 1760, {"flavour": flav, "free_before_episode": k, "episode": ops}
 
 
-def forced_history(ctx):
+def boundary_history(ctx):
+    """exhaustion exactly where a growing file needs an extension block and a data block together (every 72 data blocks):
+    the volume is filled completely, then sacrificial files of known size are deleted so that exactly 73 + f blocks are
+    free (header + 72 data blocks fit, f = 0..3 blocks remain for the pair request)"""
     rng = ctx.rng
     flav = rng.choice(gen.FLAVOURS)
+    bs = 512 if flav & 1 else 488
+    f = rng.choice([0, 1, 1, 2, 3])
+    L = gen.dev_create("DD", flav) + ["mountdev 0", "mount 0 0",
+        "open 0 - %s w" % hexs(b"keep1"), "write 0 21 %d" % (3 * bs + 5), "close 0",
+        "mkdir - %s" % hexs(b"kd"), "open 0 %s %s w" % (hexs(b"kd"), hexs(b"keep2")), "write 0 22 %d" % (75 * bs), "close 0"]
+    variant = rng.choice(["new-file-one-write", "new-file-chunks", "append-after-close", "second-boundary"])
+    # sacrificial files: s1 = header + 72 data blocks (73 blocks, no extension block), s2 = f blocks
+    if variant == "second-boundary":
+        # keep3 has 143 data blocks (1 ext); appending 1 block completes 144, the next needs ext + data
+        L += ["open 0 - %s w" % hexs(b"keep3"), "write 0 25 %d" % (143 * bs), "close 0"]
+        L += ["open 0 - %s w" % hexs(b"sacr1"), "write 0 24 0", "close 0"]                                 # 1 block
+    else:
+        L += ["open 0 - %s w" % hexs(b"sacr1"), "write 0 24 %d" % (72 * bs), "close 0"]                    # 73 blocks
+    if f:
+        L += ["open 0 - %s w" % hexs(b"sacr2"), "write 0 26 %d" % ((f - 1) * bs), "close 0"]
+    # an empty target created before the fill, so that the episode itself allocates data/extension blocks only
+    L += ["open 0 - %s w" % hexs(b"target"), "close 0"]
+    L += ["open 1 - %s w" % hexs(b"filler"), "nospace 1", "write 1 23 %d" % (2000 * bs), "nospace 0", "close 1", "free",
+          "rm - %s" % hexs(b"sacr1")] + (["rm - %s" % hexs(b"sacr2")] if f else []) + ["free", "dump $W/img1", "spectree", "nospace 1"]
+    if variant == "new-file-one-write":
+        # the target header exists already: 73 + f free blocks = 72 data + (1 + f)
+        ops = ["open 2 - %s rw" % hexs(b"target"), "write 2 31 %d" % ((72 + rng.choice([1, 2, 5, 8])) * bs), "stat 2", "close 2"]
+    elif variant == "new-file-chunks":
+        ops = ["open 2 - %s rw" % hexs(b"target")] + ["write 2 %d %d" % (40 + i, bs * 8) for i in range(10)] + ["stat 2", "close 2"]
+    elif variant == "append-after-close":
+        ops = ["open 2 - %s rw" % hexs(b"target"), "write 2 31 %d" % (72 * bs), "close 2",
+               "open 2 - %s rw" % hexs(b"target"), "seek 2 %d" % (72 * bs), "write 2 33 %d" % rng.choice([1, bs, 3 * bs]), "stat 2", "close 2"]
+    else:
+        ops = ["open 2 - %s rw" % hexs(b"keep3"), "seek 2 %d" % (143 * bs), "write 2 34 %d" % rng.choice([bs + 1, 2 * bs, 4 * bs]), "stat 2", "close 2"]
+    L += ops + ["nospace 0", "free", "list - 0 0", "dump $W/img2", "spectree",
+                # the last free blocks must still be usable: one-block files until the volume is full, then remount
+                "nospace 1"] + ["open 3 - %s w" % hexs(b"tiny%d" % i) for i in range(1)] + ["close 3", "nospace 0", "free",
+                "umount", "umountdev", "mountdev 0", "mount 0 0", "free",
+                "open 3 - %s r" % hexs(b"keep1"), "read 3 %d" % (200 * bs), "close 3",
+                "open 3 %s %s r" % (hexs(b"kd"), hexs(b"keep2")), "read 3 %d" % (200 * bs), "close 3",
+                "open 3 - %s r" % hexs(b"target"), "read 3 %d" % (200 * bs), "close 3",
+                "rm - %s" % hexs(b"filler"), "free",
+                "open 1 - %s w" % hexs(b"filler2"), "nospace 1", "write 1 23 %d" % (2000 * bs), "nospace 0", "close 1", "free",
+                "dump $W/img3", "spectree", "umount", "umountdev"]
+    return L, 0, 1760, {"flavour": flav, "free_after_72_blocks": f, "variant": variant, "episode": ops}
+
+
+FORCED_KINDS = ["append-across-72", "create-file", "mkdir-cache-grows", "mkdir-cache-fits", "comment-then-mkdir", "create-file-cache-grows", "rename-longer-cache-grows"]
+
+
+def forced_history(ctx, _state={"i": 0}):
+    """forced exhaustion, enumerated: (kind of call) x (allocation request j of the call and all later ones fail)"""
+    rng = ctx.rng
+    i = _state["i"]
+    _state["i"] += 1
+    kind = FORCED_KINDS[i % len(FORCED_KINDS)]
+    j = 1 + (i // len(FORCED_KINDS)) % 4
+    flav = rng.choice(gen.FLAVOURS if "cache" not in kind else [4, 5])
     bs = 512 if flav & 1 else 488
     L = gen.dev_create("DD", flav) + ["mountdev 0", "mount 0 0",
         "open 0 - %s w" % hexs(b"keep1"), "write 0 21 %d" % (71 * bs + 5), "close 0",
         "mkdir - %s" % hexs(b"kd")]
+    kd = hexs(b"kd")
     if flav & 4:
-        for i in range(10):
-            L += ["mkdir %s %s" % (hexs(b"kd"), hexs(b"e%02d_sixteen_ch" % i))]    # cache block of kd nearly full
+        # 16-byte names: 42-byte records, 11 per cache block: with 11 entries the block of kd is full, the next record needs a new block
+        for k in range(11 if "grows" in kind else 9):
+            L += ["mkdir %s %s" % (kd, hexs(b"e%02d_sixteen_ch" % k))]
     L += ["free", "dump $W/img1", "spectree"]
-    j = rng.randint(1, 4)
-    c = rng.random()
-    if c < 0.35:
+    if kind == "append-across-72":
         ep = ["open 2 - %s rw" % hexs(b"keep1"), "seek 2 %d" % (71 * bs + 5), "allocfail %d" % j, "write 2 32 %d" % (3 * bs), "allocfail 0", "close 2"]
-    elif c < 0.55:
+    elif kind == "create-file":
         ep = ["allocfail %d" % j, "open 2 - %s w" % hexs(b"newf"), "allocfail 0", "write 2 5 10", "close 2"]
-    elif c < 0.8:
-        ep = ["allocfail %d" % j, "mkdir %s %s" % (hexs(b"kd"), hexs(b"e10_sixteen_ch")), "allocfail 0"]
+    elif kind in ("mkdir-cache-grows", "mkdir-cache-fits"):
+        ep = ["allocfail %d" % j, "mkdir %s %s" % (kd, hexs(b"e20_sixteen_ch")), "allocfail 0"]
+    elif kind == "create-file-cache-grows":
+        ep = ["allocfail %d" % j, "open 2 %s %s w" % (kd, hexs(b"e21_sixteen_ch")), "allocfail 0", "write 2 5 10", "close 2"]
+    elif kind == "rename-longer-cache-grows":
+        ep = ["allocfail %d" % j, "mv %s %s %s %s" % (kd, hexs(b"e03_sixteen_ch"), kd, hexs(b"e03_a_name_of_thirty_characters")), "allocfail 0"]
     else:
         ep = ["allocfail %d" % j, "comment - %s %s" % (hexs(b"keep1"), hexs(b"k" * 79)), "allocfail 0",
-              "allocfail %d" % j, "mkdir %s %s" % (hexs(b"kd"), hexs(b"e11_sixteen_ch")), "allocfail 0"]
-    L += ep + ["free", "list - 0 0", "list %s 0 0" % hexs(b"kd"), "dump $W/img2", "spectree", "umount", "umountdev", "mountdev 0", "mount 0 0",
-               "open 3 - %s r" % hexs(b"keep1"), "read 3 %d" % (200 * bs), "close 3", "list %s 1 0" % hexs(b"kd"),
-               "mkdir %s %s" % (hexs(b"kd"), hexs(b"after")), "free", "dump $W/img3", "spectree", "umount", "umountdev"]
-    return L, 0, 1760, {"flavour": flav, "fail_from_request": j, "episode": ep}
+              "allocfail %d" % j, "mkdir %s %s" % (kd, hexs(b"e22_sixteen_ch")), "allocfail 0"]
+    L += ep + ["free", "list - 0 0", "list %s 0 0" % kd, "list %s 1 0" % kd, "dump $W/img2", "spectree", "umount", "umountdev", "mountdev 0", "mount 0 0",
+               "open 3 - %s r" % hexs(b"keep1"), "read 3 %d" % (200 * bs), "close 3", "list %s 1 0" % kd,
+               "mkdir %s %s" % (kd, hexs(b"after")), "free", "dump $W/img3", "spectree", "umount", "umountdev"]
+    return L, 0, 1760, {"flavour": flav, "fail_from_request": j, "kind": kind, "episode": ep}
 
 
 def run(ctx):
@@ -159,10 +219,12 @@ def run(ctx):
     rng = ctx.rng
     first_fail = None
     others = {}
-    gens = [("real-exhaustion", exhaustion_history)] * (6 if ctx.tier == "quick" else 300) + [("forced-exhaustion", forced_history)] * (26 if ctx.tier == "quick" else 600)
-    for (label, fn) in gens:
-        L, first, nb, meta = fn(ctx)
-        r = hist.run_history(ctx, L, first=first, nblocks=nb, spec_patch=spec_patch, ignore_names=FILLERS)
+    gens = ([("real-exhaustion", exhaustion_history)] * (8 if ctx.tier == "quick" else 300) +
+            [("extension-boundary-exhaustion", boundary_history)] * (12 if ctx.tier == "quick" else 300) +
+            [("forced-exhaustion", forced_history)] * (56 if ctx.tier == "quick" else 840))
+    built = [(label,) + tuple(fn(ctx)) for (label, fn) in gens]
+    results = common.pmap(lambda b: hist.run_history(ctx, b[1], first=b[2], nblocks=b[3], spec_patch=spec_patch, ignore_names=FILLERS), built)
+    for (label, L, first, nb, meta), r in zip(built, results):
         ctx.count((label, hash(tuple(L))))
         ctx.bump("history:" + label)
         nshort = 0
@@ -198,7 +260,7 @@ def run(ctx):
             ctx.failures[0]["input"]["minimised_script"] = M
         except Exception:
             pass
-    rule = ("real exhaustion: DD floppy pre-filled leaving k = 0..5 free blocks, then 1-3 block-hungry operations (create+write at several alignments, mkdir, append across "
+    rule = ("extension-boundary exhaustion: exactly 73+f blocks free (f = 0..3) when a file grows through a multiple of 72 data blocks (one write, chunks, append after close, second boundary); real exhaustion: DD floppy pre-filled leaving k = 0..5 free blocks, then 1-3 block-hungry operations (create+write at several alignments, mkdir, append across "
             "the 72-block extension boundary, grow by truncate, longer comment / entry in a nearly full cache block); forced exhaustion: allocation request j = 1..4 of the call "
             "and all later ones fail; all six flavours; checked: result vs model replayed with the accepted byte count, bystander files, decoder (structure + accounting) "
             "before/after/after remount, refill to same capacity; distinct = distinct script")
